@@ -21,6 +21,7 @@ def sh(cmd):
 def main():
     root = sys.argv[1]
     only = sys.argv[sys.argv.index("--only") + 1] if "--only" in sys.argv else None
+    variants = sys.argv[sys.argv.index("--variants") + 1].split(",") if "--variants" in sys.argv else None
     m = json.load(open(os.path.join(VERIF, "MANIFEST.json")))
     ids = [c["property_id"] for c in m["checks"]]
     bad = 0
@@ -28,6 +29,8 @@ def main():
         d = os.path.dirname(pd)
         prop = os.path.basename(os.path.dirname(d))
         if only and prop != only:
+            continue
+        if variants and os.path.basename(d) not in variants:
             continue
         wt = f"/tmp/wt/neval-{prop}-{os.path.basename(d)}"
         sh(f"git -C /repo worktree remove --force {wt}")
